@@ -1,7 +1,8 @@
 (* Proofs about the reply parser of Sat/Dimacs.v (C16b): every layout of a well-formed reply is read
    back as the printed model / UNSAT; a reply is reported as a result only if it carries the
-   status line and (for a model) the terminating 0. *)
-From Coq Require Import ZifyBool Lia.
+   status line and (for a model) the terminating 0; every prefix of a canonical SAT reply that ends
+   before the terminating 0 (cut anywhere, also inside a literal) is Unknown or a panic. *)
+From Coq Require Import Decimal DecimalFacts DecimalPos DecimalN DecimalZ ZifyBool Lia.
 From Crusta Require Import Sat.Cnf Sat.Dimacs Sat.Dpll Model.SatSpec Proofs.DimacsProofs.
 Import ListNotations.
 Local Open Scope N_scope.
@@ -465,3 +466,415 @@ Qed.
 
 Lemma reply_empty : forall n, reply_parse n [] = RUnknown.
 Proof. reflexivity. Qed.
+
+(* ------------------------------------------------------------------ C16b: a reply cut anywhere before the terminating 0 *)
+(* --- a cut canonical literal never reads as 0 *)
+Lemma of_uint_nz : forall u, unorm u <> zero -> N.of_uint u <> 0.
+Proof.
+  intros u H E. apply H. rewrite <- DecimalN.Unsigned.to_of. rewrite E. reflexivity.
+Qed.
+
+Definition nzdigit (b : byte) : Prop := is_digit b = true /\ b <> 48.
+
+Lemma bytes_uint_nz : forall b r u, nzdigit b -> bytes_uint (b :: r) = Some u -> N.of_uint u <> 0.
+Proof.
+  intros b r u [Hd H48] H. cbn [bytes_uint] in H. unfold digit_of in H.
+  apply N.eqb_neq in H48. rewrite H48 in H.
+  repeat match type of H with
+  | context [if N.eqb b ?c then _ else _] => destruct (N.eqb b c)
+  end;
+  try discriminate H;
+  (destruct (bytes_uint r) as [u'|]; [|discriminate H]; inversion H; subst u; apply of_uint_nz; cbn [unorm nzhead]; discriminate).
+Qed.
+
+Lemma parse_Z_digit_head : forall b r, is_digit b = true ->
+  parse_Z (b :: r) = match bytes_uint (b :: r) with Some u => Some (Z.of_N (N.of_uint u)) | None => None end.
+Proof.
+  intros b r Hb. unfold parse_Z.
+  assert (H45 : N.eqb b 45 = false) by (apply N.eqb_neq; intros ->; discriminate).
+  assert (H43 : N.eqb b 43 = false) by (apply N.eqb_neq; intros ->; discriminate).
+  unfold split_sign. rewrite H45, H43. cbn [snd fst]. destruct (bytes_uint (b :: r)); reflexivity.
+Qed.
+
+Lemma parse_Z_minus : forall r,
+  parse_Z (45 :: r) = match r with
+                      | [] => None
+                      | _ => match bytes_uint r with Some u => Some (Z.opp (Z.of_N (N.of_uint u))) | None => None end
+                      end.
+Proof.
+  intros r. unfold parse_Z, split_sign. replace (N.eqb 45 45) with true by reflexivity. cbn [snd fst].
+  destruct r as [|b r]; [reflexivity|]. destruct (bytes_uint (b :: r)); reflexivity.
+Qed.
+
+Lemma parse_isize_nz : forall tok, (forall z, parse_Z tok = Some z -> z <> 0%Z) -> parse_isize tok <> Some 0%Z.
+Proof.
+  intros tok H. unfold parse_isize. destruct (parse_Z tok) as [z|] eqn:E; [|discriminate].
+  specialize (H z eq_refl). destruct (Z.leb isize_min z && Z.leb z isize_max); [|discriminate].
+  intros K. inversion K. contradiction.
+Qed.
+
+Lemma pos_to_uint_nzhead : forall p, exists b r, uint_bytes (Pos.to_uint p) = b :: r /\ nzdigit b.
+Proof.
+  intros p.
+  assert (Hn : unorm (Pos.to_uint p) = Pos.to_uint p).
+  { rewrite <- DecimalPos.Unsigned.to_of. rewrite DecimalPos.Unsigned.of_to. reflexivity. }
+  pose proof (DecimalPos.Unsigned.to_uint_nonnil p) as Hnil.
+  pose proof (DecimalPos.Unsigned.to_uint_nonzero p) as Hz.
+  destruct (Pos.to_uint p) as [|u|u|u|u|u|u|u|u|u|u] eqn:E;
+    try (cbn [uint_bytes]; eexists; eexists; split; [reflexivity|split; [reflexivity|discriminate]]).
+  - contradiction Hnil. reflexivity.
+  - exfalso. unfold unorm in Hn. destruct (nzhead (D0 u)) eqn:En; try discriminate Hn.
+    + apply Hz. symmetry. exact Hn.
+    + exact (nzhead_nonzero _ _ En).
+Qed.
+
+Lemma print_lit_shape : forall l, l <> 0%Z ->
+  (exists b r, print_lit l = b :: r /\ nzdigit b) \/ (exists b r, print_lit l = 45 :: b :: r /\ nzdigit b).
+Proof.
+  intros l Hl. unfold print_lit. destruct l as [|p|p]; [contradiction Hl; reflexivity| |]; cbn [Z.to_int].
+  - left. apply pos_to_uint_nzhead.
+  - right. destruct (pos_to_uint_nzhead p) as (b & r & E & Hb). exists b, r. rewrite E. split; [reflexivity|exact Hb].
+Qed.
+
+(* a non-empty prefix of the decimal text of a non-zero literal is not read as 0 *)
+Lemma cut_literal_not_zero : forall l tok e, l <> 0%Z -> tok <> [] -> tok ++ e = print_lit l ->
+  parse_isize tok <> Some 0%Z.
+Proof.
+  intros l tok e Hl Htok H. apply parse_isize_nz. intros z Hz.
+  destruct (print_lit_shape l Hl) as [(b & r & E & Hb)|(b & r & E & Hb)]; rewrite E in H.
+  - destruct tok as [|b' t']; [contradiction Htok; reflexivity|]. cbn [app] in H. inversion H. subst b'.
+    rewrite (parse_Z_digit_head b t' (proj1 Hb)) in Hz.
+    destruct (bytes_uint (b :: t')) as [u|] eqn:Eu; [|discriminate Hz]. inversion Hz.
+    pose proof (bytes_uint_nz b t' u Hb Eu). lia.
+  - destruct tok as [|b' t']; [contradiction Htok; reflexivity|]. cbn [app] in H. inversion H. subst b'.
+    rewrite parse_Z_minus in Hz. destruct t' as [|b'' t'']; [cbv beta iota in Hz; discriminate Hz|]. cbv beta iota in Hz.
+    cbn [app] in H2. inversion H2. subst b''.
+    match type of Hz with context [bytes_uint ?x] => destruct (bytes_uint x) as [u|] eqn:Eu end; [|discriminate Hz]. inversion Hz.
+    pose proof (bytes_uint_nz b t'' u Hb Eu). lia.
+Qed.
+
+(* --- the words of a cut line *)
+Lemma fields_app_gen : forall sep p, exists init lst,
+  fields sep p = init ++ [lst] /\
+  forall s, fields sep (p ++ s) = init ++ (lst ++ hd [] (fields sep s)) :: tl (fields sep s).
+Proof.
+  intros sep p. induction p as [|b p IH].
+  - exists [], []. split; [reflexivity|]. intros s. cbn [app hd tl].
+    destruct (fields sep s) as [|f fs] eqn:E; [exfalso; exact (fields_nonnil sep s E)|reflexivity].
+  - destruct IH as (init & lst & E & Hs). cbn [app fields]. destruct (sep b).
+    + exists ([] :: init), lst. split; [rewrite E; reflexivity|]. intros s. rewrite Hs. reflexivity.
+    + rewrite E. destruct init as [|f init].
+      * exists [], (b :: lst). split; [reflexivity|]. intros s. rewrite Hs. reflexivity.
+      * exists ((b :: f) :: init), lst. split; [reflexivity|]. intros s. rewrite Hs. reflexivity.
+Qed.
+
+Lemma tokens_in : forall l t, In t (tokens l) <-> In t (fields is_ws l) /\ t <> [].
+Proof.
+  intros l t. unfold tokens. rewrite filter_In. split; intros [H1 H2]; (split; [exact H1|]).
+  - intros ->. discriminate H2.
+  - destruct t; [contradiction H2; reflexivity|reflexivity].
+Qed.
+
+(* every word of a prefix is a prefix of a word of the whole *)
+Lemma tokens_prefix : forall p s t, In t (tokens p) -> exists e, In (t ++ e) (tokens (p ++ s)).
+Proof.
+  intros p s t Ht. apply tokens_in in Ht. destruct Ht as [Hin Hne].
+  destruct (fields_app_gen is_ws p) as (init & lst & E & Hs). rewrite E in Hin.
+  apply in_app_or in Hin. destruct Hin as [Hin|[<-|[]]].
+  - exists []. rewrite app_nil_r. apply tokens_in. split; [|exact Hne]. rewrite Hs. apply in_or_app. left. exact Hin.
+  - exists (hd [] (fields is_ws s)). apply tokens_in. split.
+    + rewrite Hs. apply in_or_app. right. left. reflexivity.
+    + destruct lst; [contradiction Hne; reflexivity|discriminate].
+Qed.
+
+Lemma tokens_v_sp : forall r, tokens (118 :: 32 :: r) = [118] :: tokens r.
+Proof.
+  intros r. unfold tokens. cbn [fields]. replace (is_ws 118) with false by reflexivity.
+  replace (is_ws 32) with true by reflexivity. reflexivity.
+Qed.
+
+Lemma tokens_app_sp : forall p, tokens (p ++ [32]) = tokens p.
+Proof.
+  intros p. unfold tokens. destruct (fields_app_gen is_ws p) as (init & lst & E & Hs).
+  rewrite Hs, E. replace (fields is_ws [32]) with ([[]; []] : list bytes) by reflexivity. cbn [hd tl].
+  rewrite app_nil_r. rewrite !filter_app. cbn [filter is_nil negb]. destruct (negb (is_nil lst)); reflexivity.
+Qed.
+
+Lemma prefixb_v_sp_inv : forall ln, prefixb b_v_sp ln = true -> exists r, ln = 118 :: 32 :: r.
+Proof.
+  intros ln H. unfold b_v_sp in H. destruct ln as [|a [|b r]]; cbn [prefixb] in H; try discriminate H.
+  - rewrite andb_false_r in H. discriminate H.
+  - apply andb_true_iff in H. destruct H as [H1 H2]. apply andb_true_iff in H2. destruct H2 as [H2 _].
+    apply N.eqb_eq in H1. apply N.eqb_eq in H2. subst. exists r. reflexivity.
+Qed.
+
+(* --- lines that cannot contribute to a result *)
+Definition safe_line (ln : bytes) : Prop :=
+  ln <> b_unsat /\
+  (prefixb b_v_sp ln = true -> forall tok, In tok (tl (tokens ln)) -> parse_isize tok <> Some 0%Z).
+(* every prefix of the line is safe *)
+Definition psafe (ln : bytes) : Prop := forall p s, p ++ s = ln -> safe_line p.
+
+Lemma safe_no_result : forall n out, (forall ln, In ln (lines_of out) -> safe_line ln) ->
+  reply_parse n out = RUnknown \/ reply_parse n out = RPanic.
+Proof.
+  intros n out H. destruct (reply_parse n out) as [m| | |] eqn:E; [exfalso|exfalso|left; reflexivity|right; reflexivity].
+  - destruct (reply_sat_inv n out m E) as (_ & (ln & tok & Hin & Hv & Htok & Hp) & _).
+    destruct (H ln Hin) as [_ Hs]. exact (Hs Hv tok Htok Hp).
+  - pose proof (reply_unsat_inv n out E) as Hin. destruct (H _ Hin) as [Hs _]. apply Hs. reflexivity.
+Qed.
+
+Lemma safe_head : forall ln, (forall r, ln <> 115 :: r) -> (forall r, ln <> 118 :: 32 :: r) -> safe_line ln.
+Proof.
+  intros ln H1 H2. split.
+  - unfold b_unsat. apply H1.
+  - intros Hv. destruct (prefixb_v_sp_inv ln Hv) as (r & E). exfalso. exact (H2 r E).
+Qed.
+
+Lemma psafe_head : forall ln, (forall b r, ln = b :: r -> b <> 115 /\ b <> 118) -> psafe ln.
+Proof.
+  intros ln H p s E. destruct p as [|b p].
+  - apply safe_head; intros r; discriminate.
+  - cbn [app] in E. destruct (H b (p ++ s) (eq_sym E)) as [H1 H2].
+    apply safe_head; intros r K; inversion K; subst; [apply H1|apply H2]; reflexivity.
+Qed.
+
+Lemma psafe_filler : forall f, psafe (filler_body f).
+Proof.
+  intros f. destruct f as [|t| |]; cbn [filler_body].
+  - apply psafe_head. intros b r E. inversion E. split; discriminate.
+  - apply psafe_head. intros b r E. inversion E. split; discriminate.
+  - apply psafe_head. intros b r E. discriminate E.
+  - intros p s E. unfold b_v in E. destruct p as [|b p]; [apply safe_head; intros r; discriminate|].
+    cbn [app] in E. inversion E. apply app_eq_nil in H1. destruct H1 as [-> _].
+    apply safe_head; intros r; discriminate.
+Qed.
+
+Lemma psafe_b_sat : psafe b_sat.
+Proof.
+  intros p s E. split.
+  - intros ->. discriminate E.
+  - intros Hv. destruct (prefixb_v_sp_inv p Hv) as (r & ->). discriminate E.
+Qed.
+
+(* value lines (without terminator) of non-zero literals *)
+Definition nz_lits (ls : list lit) : Prop := Forall (fun l : lit => l <> 0%Z) ls.
+
+Lemma safe_v_prefix : forall ls p s, nz_lits ls -> p ++ s = v_body ls false -> safe_line p.
+Proof.
+  intros ls p s Hls E. split.
+  - intros ->. unfold v_body, b_v, b_unsat in E. cbn [app] in E. discriminate E.
+  - intros Hv tok Htok. destruct (prefixb_v_sp_inv p Hv) as (p' & ->).
+    rewrite tokens_v_sp in Htok. cbn [tl] in Htok.
+    pose proof (tokens_v_body ls false) as T. rewrite <- E in T. cbn [app] in T. rewrite tokens_v_sp in T.
+    unfold b_v in T. inversion T as [T']. rewrite app_nil_r in T'.
+    destruct (tokens_prefix p' s tok Htok) as (e & He). rewrite T' in He.
+    apply in_map_iff in He. destruct He as (l & Hl & Hin).
+    unfold nz_lits in Hls. rewrite Forall_forall in Hls.
+    apply (cut_literal_not_zero l tok e (Hls l Hin)); [|symmetry; exact Hl].
+    apply tokens_in in Htok. exact (proj2 Htok).
+Qed.
+
+Lemma psafe_v_body : forall ls, nz_lits ls -> psafe (v_body ls false).
+Proof. intros ls Hls p s E. exact (safe_v_prefix ls p s Hls E). Qed.
+
+Lemma psafe_v_last : forall ls, nz_lits ls -> psafe (v_body ls false ++ [32]).
+Proof.
+  intros ls Hls p s E. destruct s as [|x s] using rev_ind.
+  - rewrite app_nil_r in E. subst p. split.
+    + unfold v_body, b_v, b_unsat. cbn [app]. discriminate.
+    + intros _ tok Htok. rewrite tokens_app_sp in Htok. rewrite tokens_v_body in Htok. cbn [tl] in Htok.
+      rewrite app_nil_r in Htok. apply in_map_iff in Htok. destruct Htok as (l & Hl & Hin).
+      unfold nz_lits in Hls. rewrite Forall_forall in Hls.
+      apply (cut_literal_not_zero l tok [] (Hls l Hin)); [|rewrite app_nil_r; symmetry; exact Hl].
+      rewrite <- Hl. apply print_lit_nonnil.
+  - clear IHs. rewrite app_assoc in E. apply app_inj_tail in E. destruct E as [E _].
+    exact (safe_v_prefix ls p s Hls E).
+Qed.
+
+(* --- the lines of a prefix of a text made of plain lines *)
+Definition joinl (Ls : list bytes) : bytes := concat (map (fun l => l ++ [10]) Ls).
+Definition all_plain (Ls : list bytes) : Prop := forall l, In l Ls -> plain l = true.
+
+Lemma joinl_cons : forall l Ls, joinl (l :: Ls) = l ++ 10 :: joinl Ls.
+Proof. intros. unfold joinl. cbn [map concat]. rewrite <- app_assoc. reflexivity. Qed.
+
+Lemma joinl_app : forall a b, joinl (a ++ b) = joinl a ++ joinl b.
+Proof. intros a b. unfold joinl. rewrite map_app, concat_app. reflexivity. Qed.
+
+Lemma render_fill_joinl : forall fs, render_fill fs = joinl (map filler_body fs).
+Proof.
+  induction fs as [|f fs IH]; [reflexivity|]. cbn [map]. rewrite joinl_cons. rewrite <- IH.
+  unfold render_fill. cbn [map concat]. rewrite filler_line_body. rewrite <- app_assoc. reflexivity.
+Qed.
+
+Lemma raw_lines_plain : forall p, plain p = true ->
+  raw_lines p = match p with [] => [] | _ => [(p, false)] end.
+Proof.
+  induction p as [|b p IH]; intros H; [reflexivity|].
+  cbn [plain forallb] in H. apply andb_true_iff in H. destruct H as [Hb Hp].
+  cbn [raw_lines]. unfold plainb in Hb. assert (E : N.eqb b 10 = false) by lia. rewrite E.
+  rewrite (IH Hp). destruct p; reflexivity.
+Qed.
+
+Lemma lines_of_joinl : forall Ls p, all_plain Ls -> plain p = true ->
+  lines_of (joinl Ls ++ p) = Ls ++ match p with [] => [] | _ => [p] end.
+Proof.
+  induction Ls as [|l Ls IH]; intros p HLs Hp.
+  - cbn [joinl map concat app]. unfold lines_of. rewrite (raw_lines_plain p Hp). destruct p; reflexivity.
+  - rewrite joinl_cons. rewrite <- app_assoc. cbn [app]. unfold lines_of.
+    rewrite (raw_lines_app l _ (HLs l (or_introl eq_refl))). cbn [map]. fold (lines_of (joinl Ls ++ p)).
+    rewrite (IH p (fun x Hx => HLs x (or_intror Hx)) Hp). unfold rust_line. cbn [snd fst].
+    rewrite (plain_strip_cr l (HLs l (or_introl eq_refl))). reflexivity.
+Qed.
+
+Lemma prefix_joinl : forall Ls last out cut, joinl Ls ++ last = out ++ cut ->
+  exists Ls' p s, out = joinl Ls' ++ p /\ (forall l, In l Ls' -> In l Ls) /\ (In (p ++ s) Ls \/ p ++ s = last).
+Proof.
+  induction Ls as [|l Ls IH]; intros last out cut E.
+  - exists [], out, cut. split; [reflexivity|]. split; [intros l []|]. right. symmetry. exact E.
+  - rewrite joinl_cons in E. rewrite <- app_assoc in E. cbn [app] in E.
+    apply app_eq_app in E. destruct E as (e & [[E1 E2]|[E1 E2]]).
+    + (* the cut is inside [l] *)
+      exists [], out, e. split; [reflexivity|]. split; [intros x []|]. left. left. exact E1.
+    + destruct e as [|b e'].
+      * exists [], out, []. split; [reflexivity|]. split; [intros x []|]. left. left. rewrite E1. rewrite !app_nil_r. reflexivity.
+      * cbn [app] in E2. inversion E2 as [[Hb E3]]. subst b.
+        destruct (IH last e' cut E3) as (Ls' & p & s & Ho & Hin & Hp).
+        exists (l :: Ls'), p, s. split; [|split].
+        -- rewrite E1, Ho. rewrite joinl_cons. rewrite <- app_assoc. reflexivity.
+        -- intros x [<-|Hx]; [left; reflexivity|right; exact (Hin x Hx)].
+        -- destruct Hp as [Hp|Hp]; [left; right; exact Hp|right; exact Hp].
+Qed.
+
+Lemma prefix_lines_safe : forall Ls last out cut,
+  all_plain Ls -> plain last = true -> (forall l, In l Ls -> psafe l) -> psafe last ->
+  joinl Ls ++ last = out ++ cut ->
+  forall ln, In ln (lines_of out) -> safe_line ln.
+Proof.
+  intros Ls last out cut HLs Hlast Hsafe Hsl E ln Hln.
+  destruct (prefix_joinl Ls last out cut E) as (Ls' & p & s & Ho & Hin & Hp).
+  assert (Hps : plain (p ++ s) = true) by (destruct Hp as [Hp|Hp]; [exact (HLs _ Hp)|rewrite Hp; exact Hlast]).
+  rewrite plain_app in Hps. apply andb_true_iff in Hps. destruct Hps as [Hpp _].
+  subst out. rewrite (lines_of_joinl Ls' p (fun x Hx => HLs x (Hin x Hx)) Hpp) in Hln.
+  apply in_app_or in Hln. destruct Hln as [Hln|Hln].
+  - apply (Hsafe ln (Hin ln Hln) ln []). apply app_nil_r.
+  - assert (Hlp : ln = p) by (destruct p; [destruct Hln|destruct Hln as [<-|[]]; reflexivity]). subst ln.
+    destruct Hp as [Hp|Hp]; [exact (Hsafe _ Hp p s eq_refl)|exact (Hsl p s Hp)].
+Qed.
+
+(* --- the canonical SAT reply up to its terminating 0, as lines *)
+Fixpoint vlines (lay : layout) (ls : list lit) : list bytes :=
+  match lay with
+  | [] => []
+  | (fs, k) :: r => map filler_body fs ++ v_body (firstn k ls) false :: vlines r (skipn k ls)
+  end.
+Fixpoint vlast_lits (lay : layout) (ls : list lit) : list lit :=
+  match lay with
+  | [] => ls
+  | (_, k) :: r => vlast_lits r (skipn k ls)
+  end.
+(* the complete lines before the line carrying the terminator, and that line up to the terminator *)
+Definition sat_lines (status_last : bool) (pre : list filler) (lay : layout) (m : assignment) : list bytes :=
+  map filler_body pre ++ (if status_last then [] else [b_sat]) ++ vlines lay (model_lits m).
+Definition sat_last (lay : layout) (m : assignment) : bytes := v_body (vlast_lits lay (model_lits m)) false ++ [32].
+Definition sat_before0 (status_last : bool) (pre : list filler) (lay : layout) (m : assignment) : bytes :=
+  joinl (sat_lines status_last pre lay m) ++ sat_last lay m.
+
+Lemma render_v_joinl : forall lay ls,
+  render_v lay ls = (joinl (vlines lay ls) ++ v_body (vlast_lits lay ls) false ++ [32]) ++ [48; 10].
+Proof.
+  induction lay as [|[fs k] lay IH]; intros ls.
+  - cbn [render_v vlines vlast_lits joinl map concat app]. unfold v_line, v_body, b_sp_0.
+    rewrite app_nil_r. rewrite <- !app_assoc. reflexivity.
+  - cbn [render_v vlines vlast_lits]. rewrite (IH (skipn k ls)). rewrite render_fill_joinl, v_line_body.
+    rewrite joinl_app, joinl_cons. rewrite <- !app_assoc. reflexivity.
+Qed.
+
+Lemma render_sat_before0 : forall status_last pre lay post m,
+  render_sat status_last pre lay post m =
+  sat_before0 status_last pre lay m ++ [48; 10] ++ (if status_last then status_sat else []) ++ render_fill post.
+Proof.
+  intros status_last pre lay post m. unfold render_sat, sat_before0, sat_lines, sat_last.
+  rewrite render_v_joinl, render_fill_joinl. rewrite !joinl_app.
+  assert (Es : (if status_last then [] else status_sat) = joinl (if status_last then [] else [b_sat])).
+  { destruct status_last; [reflexivity|]. unfold joinl, status_sat. cbn [map concat]. rewrite app_nil_r. reflexivity. }
+  rewrite Es. rewrite <- !app_assoc. reflexivity.
+Qed.
+
+Lemma nz_firstn : forall k ls, nz_lits ls -> nz_lits (firstn k ls).
+Proof. intros k ls H. apply Forall_firstn, H. Qed.
+Lemma nz_skipn : forall k ls, nz_lits ls -> nz_lits (skipn k ls).
+Proof. intros k ls H. apply Forall_skipn, H. Qed.
+
+Lemma model_lits_nz : forall m, nz_lits (model_lits m).
+Proof.
+  intros m. unfold nz_lits. eapply Forall_impl; [|exact (model_lits_in m)]. cbn beta. intros l [H _]. exact H.
+Qed.
+
+Lemma fillers_plain : forall fs, forallb filler_ok fs = true -> all_plain (map filler_body fs).
+Proof.
+  intros fs H l Hl. apply in_map_iff in Hl. destruct Hl as (f & <- & Hf).
+  rewrite forallb_forall in H. apply filler_plain, H, Hf.
+Qed.
+Lemma fillers_psafe : forall fs l, In l (map filler_body fs) -> psafe l.
+Proof. intros fs l Hl. apply in_map_iff in Hl. destruct Hl as (f & <- & _). apply psafe_filler. Qed.
+
+Lemma vlines_plain : forall lay ls, layout_ok lay = true -> all_plain (vlines lay ls).
+Proof.
+  induction lay as [|[fs k] lay IH]; intros ls H l Hl; [destruct Hl|].
+  cbn [layout_ok forallb fst] in H. apply andb_true_iff in H. destruct H as [Hfs Hlay].
+  cbn [vlines] in Hl. apply in_app_or in Hl. destruct Hl as [Hl|[<-|Hl]].
+  - exact (fillers_plain fs Hfs l Hl).
+  - apply v_body_plain.
+  - exact (IH (skipn k ls) Hlay l Hl).
+Qed.
+
+Lemma vlines_psafe : forall lay ls l, nz_lits ls -> In l (vlines lay ls) -> psafe l.
+Proof.
+  induction lay as [|[fs k] lay IH]; intros ls l Hls Hl; [destruct Hl|].
+  cbn [vlines] in Hl. apply in_app_or in Hl. destruct Hl as [Hl|[<-|Hl]].
+  - exact (fillers_psafe fs l Hl).
+  - apply psafe_v_body, nz_firstn, Hls.
+  - exact (IH (skipn k ls) l (nz_skipn k ls Hls) Hl).
+Qed.
+
+Lemma vlast_nz : forall lay ls, nz_lits ls -> nz_lits (vlast_lits lay ls).
+Proof.
+  induction lay as [|[fs k] lay IH]; intros ls H; [exact H|]. cbn [vlast_lits]. apply IH, nz_skipn, H.
+Qed.
+
+(* every prefix of the part before the terminating 0: Unknown or panic, whatever n_vars *)
+Theorem sat_before0_prefix : forall n status_last pre lay m out cut,
+  forallb filler_ok pre = true -> layout_ok lay = true ->
+  sat_before0 status_last pre lay m = out ++ cut ->
+  reply_parse n out = RUnknown \/ reply_parse n out = RPanic.
+Proof.
+  intros n status_last pre lay m out cut Hpre Hlay E. apply safe_no_result.
+  unfold sat_before0 in E.
+  apply (prefix_lines_safe (sat_lines status_last pre lay m) (sat_last lay m) out cut); [| | | |exact E].
+  - intros l Hl. unfold sat_lines in Hl. apply in_app_or in Hl. destruct Hl as [Hl|Hl]; [exact (fillers_plain pre Hpre l Hl)|].
+    apply in_app_or in Hl. destruct Hl as [Hl|Hl]; [|exact (vlines_plain lay _ Hlay l Hl)].
+    destruct status_last; [destruct Hl|]. destruct Hl as [<-|[]]. reflexivity.
+  - unfold sat_last. rewrite plain_app. rewrite v_body_plain. reflexivity.
+  - intros l Hl. unfold sat_lines in Hl. apply in_app_or in Hl. destruct Hl as [Hl|Hl]; [exact (fillers_psafe pre l Hl)|].
+    apply in_app_or in Hl. destruct Hl as [Hl|Hl]; [|exact (vlines_psafe lay _ l (model_lits_nz m) Hl)].
+    destruct status_last; [destruct Hl|]. destruct Hl as [<-|[]]. exact psafe_b_sat.
+  - unfold sat_last. apply psafe_v_last, vlast_nz, model_lits_nz.
+Qed.
+
+Theorem reply_truncated_any_cut : forall n status_last pre lay post m out cut,
+  forallb filler_ok pre = true -> layout_ok lay = true ->
+  render_sat status_last pre lay post m =
+    out ++ cut ++ [48; 10] ++ (if status_last then status_sat else []) ++ render_fill post ->
+  reply_parse n out = RUnknown \/ reply_parse n out = RPanic.
+Proof.
+  intros n status_last pre lay post m out cut Hpre Hlay E.
+  apply (sat_before0_prefix n status_last pre lay m out cut Hpre Hlay).
+  rewrite render_sat_before0 in E. rewrite (app_assoc out cut) in E. exact (app_inv_tail _ _ _ E).
+Qed.
+
+Theorem reply_cut_point : forall status_last pre lay post m, exists before0,
+  render_sat status_last pre lay post m =
+    before0 ++ [48; 10] ++ (if status_last then status_sat else []) ++ render_fill post.
+Proof. intros. exists (sat_before0 status_last pre lay m). apply render_sat_before0. Qed.
